@@ -138,7 +138,7 @@ func cmdCheck(args []string) int {
 	if perHarness == 0 {
 		perHarness = 10 * time.Minute
 		if e.tier == 1 {
-			perHarness = 45 * time.Minute
+			perHarness = 20 * time.Minute
 		}
 	}
 	for _, h := range e.harnesses {
